@@ -31,6 +31,7 @@ Record case_t := mkCase {
   c_radd : list (node * obs);                  (* per operand: x, list(x + A) *)
   c_unchanged : bool;                          (* operand snapshots equal before / after *)
   c_bases_ok : bool;                           (* class spec __bases__ = declared + inherited *)
+  c_cdecl : list (node * list ttree);          (* classes without base classes: what was passed to implementer / classImplements *)
   c_cls : node;
   c_ops : list iop;
   c_inst : list (obs * bool * obs)             (* after each op: directlyProvidedBy, raised, providedBy *)
@@ -230,6 +231,10 @@ Definition check_spec (c : case_t) : bool :=
   let its := map (sp_iter g ifs) (c_decls c) in
   let nodes := map fst g in
   c_unchanged c && c_bases_ok c
+  (* a class declared with these (possibly nested / one-shot iterable) arguments implements
+     exactly their flattening; the class specification's interfaces are read from the graph *)
+  && forallb (fun '(k, ts) => lnat_eqb (sp_dedupe (sp_ifaces g ifs k)) (sp_dedupe (flat_map (sp_flat g ifs) ts)))
+             (c_cdecl c)
   && all2 obs_eqb (c_iter c) its
   && all2 (fun o it => obsb_eqb o (map (fun x => memb x it) nodes)) (c_contains c) its
   && all2 (fun o it => is_some_true (sp_flat_ok g ifs it) o) (c_flat c) its
